@@ -19,7 +19,7 @@ LEVEL_NOTE = "Trusted: seam completeness for lock access; planted IDs are >= 50 
 RULE = ("case index -> configuration point (index mod 216, complete product) or error configuration; world seeded per case; 1 run, "
         "+1 run after 'delete top statement, add one' for lock-using edit points. Non-trivial = every case (each is a distinct "
         "(point, world)); distinct = case index.")
-PROBES = ["cache_off_abnormal_ending", "cache_off", "cache_omitted", "lock_valid", "lock_corrupt", "lock_empty", "lock_absent", "structured_omitted",
+PROBES = ["cache_on_partial_failure", "cache_off_abnormal_ending", "cache_off", "cache_omitted", "lock_valid", "lock_corrupt", "lock_empty", "lock_absent", "structured_omitted",
           "extensions_omitted", "error_config", "second_run"]
 ASSUMPTIONS = ["fault-free runs"]
 DEADLINE = {"quick": 200, "thorough": 3000}
@@ -204,6 +204,42 @@ def evaluate_cache_off_endings(wm0, point, seed, plans, ctx):
     return viols
 
 
+def evaluate_cache_on_partial_failure(rng, wm0, point, seed, ctx, n):
+    """use_cache true/omitted: 'an inserting edit run writes the lock' - also a run in which one file could not be updated
+    (scratch create / write / rename failure) while others were."""
+    use_cache, lockstate, structured, exts, check = point
+    tag = "cache=%s|lock=%s|edit" % ("on" if use_cache else "omitted", lockstate)
+    viols = []
+    for _ in range(n):
+        kind = rng.choice(["RENAME", "WRITE", "OPEN_W"])
+        f = {"from": 1, "kinds": [kind], "pre": "tmp/", "nth": rng.randrange(1, 3), "act": "fail",
+             "errno": {"RENAME": "EACCES", "WRITE": "ENOSPC", "OPEN_W": "EMFILE"}[kind]}
+        plan = {"seed": seed, "perm": True, "faults": [f]}
+        run = scen.exec_run(wm0, False, plan, {"threads": 2}, ctx)
+        res = run["res"]
+        if not res.fired_counts() or res.mode != "exited":
+            continue
+        ctx.probes["cache_on_partial_failure"] += 1
+        nums = []
+        for p in wm0["files"]:
+            b, a = run["before"].get(p), run["after"].get(p)
+            if b and a and a["t"] == "f":
+                ins = core.explain(b["data"], a["data"])
+                if ins:
+                    nums += [x[2] for x in ins]
+        if not nums:
+            continue
+        lk = run["after"].get("proj/Breadlog.lock")
+        v = core.read_lock(lk["data"]) if lk is not None and lk["t"] == "f" else None
+        if v is None or v <= max(nums):
+            scenario = {"wm": world.wm_to_json(wm0), "point": list(point), "seed": seed, "partial_plan": plan}
+            dg = hashlib.sha256((res.trace_digest() + core.digest_world(run["after"])).encode()).hexdigest()
+            viols.append({"signature": "lock-not-written-after-partial-failure|%s|%s" % (tag, kind),
+                          "what": "one file failed (%s), others received IDs up to %d, but the lock afterwards is %s (exit %s)"
+                                  % (f, max(nums), v, res.status), "scenario": scenario, "digest": dg})
+    return viols
+
+
 def cache_off_plans(rng, wm0, check, seed, ctx, n):
     tw = scen.exec_run(wm0, check, {"seed": seed, "perm": True, "faults": []}, {"threads": 2}, ctx)
     ops = tw["res"].ops
@@ -279,6 +315,8 @@ def run_case(rng, idx, tier, ctx):
         if use_cache is False:
             plans = cache_off_plans(rng, wm, check, seed, ctx, 4 if tier == "quick" else 10)
             viols += evaluate_cache_off_endings(wm, point, seed, plans, ctx)
+        elif not check:
+            viols += evaluate_cache_on_partial_failure(rng, wm, point, seed, ctx, 2 if tier == "quick" else 6)
         if not ctx.samples:
             ctx.samples.append({"point": {"use_cache": use_cache, "lock": lockstate, "structured": structured, "extensions": exts,
                                           "mode": "check" if check else "edit"}, "files": sorted(wm["files"]),
@@ -298,6 +336,28 @@ def replay(scenario, ctx):
         return evaluate_error(wm, scenario["knobs"], scenario["err"], scenario["check"], scenario["seed"], ctx)
     pt = scenario["point"]
     pt = tuple(tuple(x) if isinstance(x, list) and False else x for x in pt)
+    if "partial_plan" in scenario:
+        import random as _r
+        # re-evaluate exactly that plan
+        use_cache, lockstate, structured, exts, check = pt
+        plan = scenario["partial_plan"]
+        run = scen.exec_run(wm, False, plan, {"threads": 2}, ctx)
+        res = run["res"]
+        nums = []
+        for p in wm["files"]:
+            b, a = run["before"].get(p), run["after"].get(p)
+            if b and a and a["t"] == "f":
+                ins = core.explain(b["data"], a["data"])
+                if ins:
+                    nums += [x[2] for x in ins]
+        lk = run["after"].get("proj/Breadlog.lock")
+        v = core.read_lock(lk["data"]) if lk is not None and lk["t"] == "f" else None
+        if nums and (v is None or v <= max(nums)):
+            kind = plan["faults"][0]["kinds"][0]
+            tag = "cache=%s|lock=%s|edit" % ("on" if use_cache else "omitted", lockstate)
+            return [{"signature": "lock-not-written-after-partial-failure|%s|%s" % (tag, kind), "what": "replayed",
+                     "scenario": scenario, "digest": hashlib.sha256((res.trace_digest() + core.digest_world(run["after"])).encode()).hexdigest()}]
+        return []
     if "ending_plan" in scenario:
         return evaluate_cache_off_endings(wm, pt, scenario["seed"], [scenario["ending_plan"]], ctx)
     return evaluate_point(wm, pt, scenario["seed"], ctx)
